@@ -10,6 +10,7 @@ import (
 
 	"verif/tools/core"
 	"verif/tools/load"
+	"verif/tools/model"
 	"verif/tools/rules"
 )
 
@@ -41,6 +42,7 @@ func main() {
 			nf++
 		}
 	}
+	model.InitConstMaps(P)
 	R.Analysed["packages"] = len(P.Pkgs)
 	R.Analysed["packages_with_deps"] = len(P.All)
 	R.Analysed["repo"] = *repo
